@@ -71,21 +71,13 @@ theorem mem_merge_int (rs : List Req) (us : List UReq) (r : Req) :
     unfold mergeReqs at h
     simp at h
   | cons x xs ih =>
-    induction us with
-    | nil =>
-      intro h
-      unfold mergeReqs at h
-      simpa using h
-    | cons y ys ihu =>
-      intro h
-      unfold mergeReqs at h
-      split at h
-      · rcases List.mem_cons.mp h with h | h
-        · cases h; exact List.mem_cons_self
-        · exact List.mem_cons_of_mem _ (ih _ h)
-      · rcases List.mem_cons.mp h with h | h
-        · cases h
-        · exact ihu h
+    intro h
+    unfold mergeReqs at h
+    simp only [List.mem_append, List.mem_map, List.mem_cons] at h
+    rcases h with ⟨u, _, hu⟩ | h | h
+    · cases hu
+    · cases h; exact List.mem_cons_self
+    · exact List.mem_cons_of_mem _ (ih _ h)
 
 /-! ## The loop -/
 
